@@ -102,6 +102,9 @@ def run_case(kind, case):
     if kind == "from_pair":
         S = (M + M.T) / 2
         ev, V = np.linalg.eigh(S)
+        pm = case.get("perm", [0, 1, 2])
+        ev = ev[pm]
+        V = V[:, pm] * np.array(case.get("signs", [1.0, 1.0, 1.0]))[None, :]
         T = cl((ev, V), case["to"])
         ok, d = tensor_oracle(T, S, case["to"])
         if not ok:
@@ -176,11 +179,16 @@ def run(ctx):
             exp = nc.enc_fracs([nc.frac(x) for x in T.eigenvalues]) + nc.enc_fracs([nc.frac(T.eigenvectors[i, j]) for j in range(3) for i in range(3)])
             cases.append(("let '(s,G) := construct %d (%s, %s) in enc3 s ++ encf G" % (nc.CONV[c1], nc.mk3(lq), nc.mkframe(cols)), exp))
             meta.append(dict(path="construct", cls=cname, M=M.tolist(), order=c1))
-            # (evals, evecs) construction
-            T3 = cls[cname]((l, F), c1)
+            # (evals, evecs) construction from an arbitrarily arranged, arbitrarily signed pair
+            pm = rng.sample(range(3), 3)
+            sg = [rng.choice((1.0, -1.0)) for _ in range(3)]
+            l2 = l[pm]
+            F2 = F[:, pm] * np.array(sg)[None, :]
+            T3 = cls[cname]((l2, F2), c1)
             exp = nc.enc_fracs([nc.frac(x) for x in T3.eigenvalues]) + nc.enc_fracs([nc.frac(T3.eigenvectors[i, j]) for j in range(3) for i in range(3)])
-            cases.append(("let '(s,G) := construct %d (%s, %s) in enc3 s ++ encf G" % (nc.CONV[c1], nc.mk3(lq), nc.mkframe(cols)), exp))
-            meta.append(dict(path="from_pair", cls=cname, M=M.tolist(), order=c1))
+            cols2 = [[nc.frac(F2[i, j]) for i in range(3)] for j in range(3)]
+            cases.append(("let '(s,G) := construct %d (%s, %s) in enc3 s ++ encf G" % (nc.CONV[c1], nc.mk3([nc.frac(x) for x in l2]), nc.mkframe(cols2)), exp))
+            meta.append(dict(path="from_pair", cls=cname, M=M.tolist(), order=c1, perm=pm, signs=sg))
             for c2 in "idhn":
                 T = cls[cname](M, c1)
                 T.order = c2
@@ -211,7 +219,8 @@ def run(ctx):
         M = nc.random_tensor(rng, kind)
         cname = list(cls)[k % 3]
         for c1 in "idhn":
-            for path, case in [("construct", dict(cls=cname, M=M.tolist(), to=c1)), ("from_pair", dict(cls=cname, M=M.tolist(), to=c1))] + \
+            for path, case in [("construct", dict(cls=cname, M=M.tolist(), to=c1)),
+                               ("from_pair", dict(cls=cname, M=M.tolist(), to=c1, perm=rng.sample(range(3), 3), signs=[rng.choice((1.0, -1.0)) for _ in range(3)]))] + \
                               [("reorder", dict(cls=cname, M=M.tolist(), frm=c1, to=c2)) for c2 in "idhn"]:
                 try:
                     ok, d = run_case(path, case)
